@@ -102,4 +102,71 @@ CHECKS += [
              "bidirectional mode) and loop closure of the circulation pump's heat within the cp-discretisation envelope.",
      "note": "non-converging assignments are counted (coverage floor 30%)"},
 ]
+
+CHECKS += [
+    {"property_id": "C08", "category": "exploration", "design_ref": "DESIGN.md 4/C08",
+     "technique": "exhaustive enumeration of start-value assignments x damping strategy per enumerated base network, pairwise agreement of converged runs",
+     "text": "For every base (scope H skeletons with heights, gas bases with 200 m steps, scope T topologies, consumer ladders) all "
+             "assignments of pn_bar / tfluid_k from an alphabet under the patterns uniform / alternating / ascending x "
+             "{constant, automatic} damping are solved; all converged runs must agree within 1e-7.",
+     "note": "tfluid_k is varied only where it is a pure start value (sequential: trees and mass-flow-defined consumers, compared "
+             "on temperatures/flows/duties; bidirectional: everything); pumps/compressors inside meshes excluded (non-unique physics)"},
+    {"property_id": "C12", "category": "model_checking", "design_ref": "DESIGN.md 4/C12",
+     "technique": "explicit-state BFS over call/edit histories on one net object with deep input snapshots and fresh-net differential",
+     "text": "All histories of steps (optional user-option / edit / restore operation + one pipeflow in one of 8 modes/option sets) "
+             "of depth 2 (quick) / 3 (thorough) on three nets: before/after deep snapshots of every input (tables, fluid "
+             "properties, std types, component list, user options, default options), bit-identical repeat, equality with the "
+             "same call on a freshly built net, heat-from-stored-solution = sequential.",
+     "note": "the documented hyd_flag marker in user_pf_options is excluded"},
+    {"property_id": "C13", "category": "model_checking", "design_ref": "DESIGN.md 4/C13",
+     "technique": "exhaustive enumeration of profile vectors x step lists x divergence policy, each logged step replayed as a stand-alone calculation",
+     "text": "All profile vectors of length 3/4 over {low, mid, high, infeasible demand, feeder off} x 6+ step lists (forward, "
+             "reversed, single, subsets, rotated) x continue_on_divergence x 1-2 controllers on a gas tree and a water mesh: "
+             "every logged step equals a stand-alone pipeflow on a fresh net with that step's values; failed steps are flagged, "
+             "carry no results, raise PipeflowNotConverged without continue_on_divergence and do not disturb later steps.",
+     "note": "pandapower's ConstControl/OutputWriter/run_time_step trusted"},
+    {"property_id": "C15", "category": "exploration", "design_ref": "DESIGN.md 4/C15",
+     "technique": "enumeration of network variations x storage paths with deep round-trip comparison and re-calculation",
+     "text": "One network per component kind, 19 variations (empty, NaN/None cells, odd indices, custom columns, five custom "
+             "fluid property classes, pump types, results, user options, sectors, controllers, warn flag), pairs of variations "
+             "(thorough) and a multinet with coupling controllers x {json string, json file, encrypted json, pickle}: tables "
+             "(dtype, index, order), fluid property by property, std types, component list, sector, name, user options, "
+             "controllers and data sources, nets_equal, identical pipeflow results.",
+     "note": "tuple vs list cells, None vs NaN in object columns and 1e-14 float noise of the JSON encoder (pandapower) are not counted"},
+    {"property_id": "C16", "category": "fault_enumeration", "design_ref": "DESIGN.md 4/C16",
+     "technique": "exhaustive fault enumeration: every fault kind at every argument position of every create function, on empty/populated nets of every sector",
+     "text": "For all 30 create_* functions the valid call and every fault of the menu at every argument position on {junction-only, "
+             "populated} x 5 sectors: a rejected call must leave every table, geodata, component_list and std types unchanged; a "
+             "call that neither raises nor adds rows is a violation; given values and dtypes are stored; documented defaults "
+             "(docstrings) equal signature defaults; bulk = singles (incl. Series arguments on partially filled tables); "
+             "every pipe std type and pump type equals creation from its parameters.",
+     "note": "fault menu written from the statement; pipe geodata content is not validated"},
+    {"property_id": "C17", "category": "model_checking", "design_ref": "DESIGN.md 4/C17",
+     "technique": "explicit-state BFS over toolbox operation sequences on the real net against a name-keyed reference model",
+     "text": "All sequences (depth 2 quick / 3 thorough) of 29 toolbox operations on two nets with junction-pipe valves whose pipe "
+             "index does / does not coincide with junction indices, remote pressure controller, circulation pumps and results: "
+             "after every operation referential integrity (own reference-column list), equality with the reference model "
+             "(elements, connections by name, untouched attributes), results unchanged under relabelling, selected islands "
+             "reproduce their results.",
+     "note": "reference model written from the docstrings"},
+    {"property_id": "C18", "category": "exploration", "design_ref": "DESIGN.md 4/C18",
+     "technique": "exhaustive flag-lattice enumeration x graph option combinations with solver-differential and own edge census / Dijkstra",
+     "text": "All consistent patterns of the 2^k lattices of four superset nets x multi x (for <=1 flag off) every include_* / "
+             "respect_status_* option set with <=2 options changed and every leave-one-out include_pipes list: "
+             "unsupplied_junctions vs solver NaN set, components vs solver islands, multigraph edge census, distances vs own Dijkstra.",
+     "note": "two known findings (prescribed-flow elements connect in the default graph; one-way pressure controller) are listed in known_findings.json"},
+    {"property_id": "C19", "category": "exploration", "design_ref": "DESIGN.md 4/C19",
+     "technique": "exhaustive enumeration over the shipped library data (all fluids, tabulated points, query shapes, pump types, pipe types)",
+     "text": "Every library fluid x property at every tabulated point, midpoint and outside points x 6 query shapes against the data "
+             "files; compressibility slope = stored derivative; integral antisymmetry / additivity / exactness for every property "
+             "class; mixture rules on the simplex grid; pump lift rules for scalar and array queries; all 285 pipe std types.",
+     "note": "data files are the ground truth"},
+    {"property_id": "C20", "category": "model_checking", "design_ref": "DESIGN.md 4/C20",
+     "technique": "enumeration of multinet controller configurations and level orders with stand-alone differential per member net",
+     "text": "Every coupling controller kind x efficiency x scaling x scalar/vector/gapped index, chains of two controllers in all "
+             "orders on one and two levels with feasible / uncomputable gas member, round trips, 3-step multinet time series: "
+             "written values = scaled input x heating-value factor x efficiency (heating values read from the data files), "
+             "every member holds the results of a stand-alone calculation, multinet converged flag = conjunction of member flags.",
+     "note": "pandapower power flow and controller loop trusted"},
+]
 NOT_APPLICABLE = [x for x in NOT_APPLICABLE if x["property_id"] not in {c["property_id"] for c in CHECKS}]
